@@ -235,13 +235,29 @@ class Scenario:
     def final_versions(self):
         return self.versions_at(len(self.ops))
 
-    def judged_ops(self):
-        """indices of the loads compared with a fresh process: every load without an injected fault for synthetic
-        libraries (cheap), the final one otherwise"""
-        last = len(self.ops) - 1
+    def spec_ops(self):
+        """loads judged against the reference loader (no process needed): every load without an injected fault
+        for synthetic libraries, the final one otherwise"""
         if self.kind == "synth":
             return [j for j, op in enumerate(self.ops) if op["op"] == "load" and not op.get("fault")]
-        return [last]
+        return [len(self.ops) - 1]
+
+    def judged_ops(self):
+        """loads that also get their own fresh process: for synthetic libraries the first two loads after every
+        change of state (edit, touch, load_metadata, interrupted load; the start counts) and the last one; the
+        final load otherwise"""
+        if self.kind != "synth":
+            return [len(self.ops) - 1]
+        out, seen = [], 0
+        for j, op in enumerate(self.ops):
+            if op["op"] == "load" and not op.get("fault"):
+                if seen < 2:
+                    out.append(j)
+                seen += 1
+            else:
+                seen = 0
+        last = [j for j in self.spec_ops()][-1:]
+        return sorted(set(out + last))
 
 
 def write_lib(root, files, versions, real_libdir, mtimes=None):
@@ -403,7 +419,7 @@ def gen_synth(rng, n):
             files[t] = [{"imports": imports[t], "content": content}]
         ops = []
         t_now = T0 + 1000
-        kind = rng.choice(["edit", "edit", "edit", "fault", "touch", "reload", "limit", "cycle", "dangling", "raise", "imports"])
+        kind = rng.choice(["edit", "edit", "edit", "fault", "touch", "reload", "limit", "cycle", "dangling", "raise", "imports", "clash"])
         final = rng.choice(tn[1:])
         first = rng.choice(tn)
         ops.append({"op": "load", "name": rng.choice([final, first, tn[-1]]), "limit": None, "fault": None})
@@ -462,6 +478,22 @@ def gen_synth(rng, n):
         elif kind == "dangling":
             files[rng.choice(tn)][0]["imports"].append("no_such_theory")
             ops.append({"op": "load", "name": tn[0], "limit": None, "fault": None})
+        elif kind == "clash":
+            # two theories that do not import each other declare the same constant; whoever imports both cannot load
+            pairs = [(a, b) for a in tn for b in tn if a < b and a not in closure(imports, [b]) and b not in closure(imports, [a])]
+            if pairs:
+                a, b = rng.choice(pairs)
+                dup = {"ty": "def.ax", "name": "c_shared_%s_%s" % (a, b), "type": "bool"}
+                files[a][0]["content"].append(dict(dup))
+                files[b][0]["content"].insert(1, dict(dup))
+                top = "s_top"
+                files[top] = [{"imports": [a, b], "content": synth_theory(rng, top, [], 1, 0, "v0")}]
+                imports[top] = [a, b]
+                tn.append(top)
+                final = rng.choice([top, top, a, b])
+                ops.append({"op": "load", "name": a, "limit": None, "fault": None})
+                ops.append({"op": "load", "name": top, "limit": None, "fault": None})
+                ops.append({"op": "load", "name": b, "limit": None, "fault": None})
         elif kind == "raise":
             # a duplicate constant: unchecked_extend raises while the file is parsed (persistent fault)
             victim = rng.choice(closure(imports, [final]))
@@ -563,6 +595,14 @@ def battery(rng):
     lib["tb"][0]["content"].append({"ty": "def.ax", "name": "c_tb_0", "type": "bool"})
     out.append(Scenario("synth", lib, [L("td"), L("ta"), L("td"), L("tb"), E("tb", 1, later), L("td")],
                         "battery: duplicate constant (raises while parsing), then repaired"))
+    # 6b. two imports declare the same constant: each loads, a theory importing both cannot (diamond duplicate)
+    lib = bat_lib(DIAMOND)
+    dup = {"ty": "def.ax", "name": "c_shared", "type": "bool"}
+    lib["tb"][0]["content"].append(dict(dup))
+    lib["tc"][0]["content"].insert(1, dict(dup))
+    out.append(Scenario("synth", lib, [L("tb"), L("tc"), L("td"), L("td"), L("te"), L("tc", ["def.ax", "c_shared"]), L("tz"), L("ta"),
+                                       E("tc", 1, later), L("td"), L("te")],
+                        "battery: two imports declare the same constant (extension raises), then one of them repaired"))
     # 7. limits
     lib = bat_lib(CHAIN)
     first = lib["td"][0]["content"][0]
@@ -605,6 +645,44 @@ def run_runner(ctx, spec, tag, timeout=900):
     return {"error": "runner failed: " + (r.stderr or r.stdout)[-600:]}
 
 
+def run_zygote(ctx, specs, tag, timeout=1500):
+    """Run many specs as forked children of one process that has imported the loader (see c12_runner.py --zygote).
+    specs: {key: spec}; returns {key: result}."""
+    if not specs:
+        return {}
+    any_spec = next(iter(specs.values()))
+    boot = os.path.join(ctx.scratch, "zygote-%s.json" % tag)
+    with open(boot, "w") as fh:
+        json.dump({"repo": any_spec["repo"], "interest": any_spec["interest"], "ops": [], "workers": WORKERS}, fh)
+    lines, outs = [], {}
+    for n, (k, spec) in enumerate(specs.items()):
+        sp = os.path.join(ctx.scratch, "zspec-%s-%d.json" % (tag, n))
+        outs[k] = os.path.join(ctx.scratch, "zout-%s-%d.json" % (tag, n))
+        with open(sp, "w") as fh:
+            json.dump(spec, fh)
+        lines.append(json.dumps({"spec": sp, "out": outs[k]}))
+    env = dict(os.environ)
+    env["PYTHONDONTWRITEBYTECODE"] = "1"
+    env["PYTHONPATH"] = any_spec["repo"]
+    env["PYTHONHASHSEED"] = "0"
+    err = ""
+    try:
+        r = subprocess.run(["/venv/bin/python", RUNNER, "--zygote", boot], cwd=any_spec["repo"], input="\n".join(lines) + "\n",
+                           capture_output=True, text=True, timeout=timeout, env=env)
+        err = (r.stderr or "")[-400:]
+    except subprocess.TimeoutExpired:
+        err = "timeout"
+    res = {}
+    for k, o in outs.items():
+        res[k] = {"error": "runner failed: " + err}
+        if os.path.exists(o):
+            with open(o) as fh:
+                for line in fh:
+                    if line.startswith("@@C12@@"):
+                        res[k] = json.loads(line[7:])
+    return res
+
+
 def prepare(ctx, sc, idx, src):
     """Scratch libraries + runner specs: the history run (H) and, for every judged load j, a fresh run (F_j) that
     does only that load on the files as they are when op j starts."""
@@ -645,23 +723,36 @@ def fresh_key(sc, j):
 
 
 # ------------------------------------------------------------------ model side
-def map_res(res):
-    if res == "ok":
-        return "ok"
-    t, msg, where = res["type"], res["msg"], res.get("where", [])
-    if t == "TheoryException" and msg.startswith("Cycle in imports"):
-        return "cycle"
-    if t == "TheoryException" and "limit" in msg and "not found" in msg:
-        return "limit"
-    if t == "Injected" or t == "TheoryException":
-        return "parse"
-    if t == "RecursionError":
-        return "order"
-    if t == "KeyError":
-        if "check_topological_sort" in where or (where and where[-1] == "load_theory_cache") or (where and where[-1] == "load_theory"):
-            return "key"
-        return "order"
-    return "other:" + t
+def coarse(res):
+    """What the property oracles look at: 'ok', or the exception CLASS (no message texts, no function names)."""
+    return "ok" if res == "ok" else "raises:" + res["type"]
+
+
+# exception classes the model's outcome kinds may show up as (correspondence only)
+MODEL_KIND_TYPES = {"cycle": {"TheoryException"}, "limit": {"TheoryException"}, "parse": {"Injected", "TheoryException"},
+                    "extend": {"TheoryException"}, "key": {"KeyError"}, "order": {"KeyError", "RecursionError"}}
+
+
+def compatible(model_kind, res):
+    if model_kind == "ok" or res == "ok":
+        return model_kind == "ok" and res == "ok"
+    return res["type"] in MODEL_KIND_TYPES.get(model_kind, set())
+
+
+# exception class the property demands per reference outcome (None: any exception)
+REF_KIND_TYPE = {"cycle": "TheoryException", "limit": "TheoryException", "key": None, "parse": None, "extend": None}
+
+
+def obs_of_item(ty, name):
+    """What an item contributes that a user can observe by name (auto-generated theorems of definitions and
+    datatypes are not listed: only presence of these names / absence of the names of items not loaded is judged)."""
+    if name is None or ty == "header":
+        return []
+    if ty in ("thm", "thm.ax"):
+        return [("theorems", name)]
+    if ty in ("type.ax", "type.ind"):
+        return [("types", name)]
+    return [("consts", name)]
 
 
 class ModelView:
@@ -709,16 +800,6 @@ class ModelView:
                             refs = [w for w in it["prop"].split() if w != "⟶"]
                             groups = [definers.get(w, [0]) for w in dict.fromkeys(refs)]
                             rules.append([self.item(n, v, i), "ok", groups])
-            # duplicate constants: the second definition raises when the first is visible -- only the
-            # same-file case is generated ("raise" scenarios); rule: raise
-            for n in self.names:
-                for v, ver in enumerate(self.files[n]):
-                    names_seen = set()
-                    for i, it in enumerate(ver["content"]):
-                        if it["ty"] == "def.ax":
-                            if it["name"] in names_seen:
-                                rules.append([self.item(n, v, i), "raise", []])
-                            names_seen.add(it["name"])
         else:
             for n, fl in self.flags.items():
                 if n in self.tid:
@@ -726,6 +807,19 @@ class ModelView:
                         if not ok:
                             rules.append([self.item(n, 0, i), "err", []])
         return rules
+
+    def ext_rules(self):
+        """extension rules for the model: a constant cannot be added to a theory that already has a constant of that
+        name (unchecked_extend raises 'Constant ... already exists'), whichever file declares it"""
+        if self.sc.kind != "synth":
+            return []
+        definers = {}
+        for n in self.names:
+            for v, ver in enumerate(self.files[n]):
+                for i, it in enumerate(ver["content"]):
+                    if it["ty"] == "def.ax":
+                        definers.setdefault(it["name"], []).append(self.item(n, v, i))
+        return [[x, [y for y in ds if y != x]] for ds in definers.values() if len(ds) > 1 for x in ds]
 
     def limit(self, n, v, lim):
         if lim is None:
@@ -771,7 +865,7 @@ class ModelView:
                             [self.item(n, v, i) for i in range(len(self.files[n][v]["items"]))], op["mtime"]])
             elif op["op"] == "reload":
                 ops.append(["reload"])
-        return sexp.dumps(["run", FUEL, [self.tid[n] for n in self.names], files, lazy, mods, self.rules(), ops])
+        return sexp.dumps(["run", FUEL, [self.tid[n] for n in self.names], files, lazy, mods, self.rules(), self.ext_rules(), ops])
 
 
 def parse_model(line, mv):
@@ -812,11 +906,13 @@ def differs(hop, fop):
             if hd[part] != fd[part]:
                 a, b = {json.dumps(x, ensure_ascii=False) for x in hd[part]}, {json.dumps(x, ensure_ascii=False) for x in fd[part]}
                 return "%s differ: only after the history %s; only in a fresh process %s" % (part, sorted(a - b)[:4], sorted(b - a)[:4])
-    hi, fi = hop.get("thy_items"), fop.get("thy_items")
+    hi, fi = hop.get("names"), fop.get("names")
     if hi is None or fi is None:
         return "theory.thy is %s after the history and %s in a fresh process" % ("None" if hi is None else "set", "None" if fi is None else "set")
-    a, b = {tuple(x) for x in hi}, {tuple(x) for x in fi}
-    return "theories differ: items only after the history %s; only in a fresh process %s" % (sorted(a - b)[:4], sorted(b - a)[:4])
+    a = {(part, x) for part in hi for x in hi[part]}
+    b = {(part, x) for part in fi for x in fi[part]}
+    return "theories differ (same names, different statements/types/attributes)" if a == b else \
+        "theories differ: names only after the history %s; only in a fresh process %s" % (sorted(a - b)[:4], sorted(b - a)[:4])
 
 
 def reference(mv, j):
@@ -875,7 +971,12 @@ def reference(mv, j):
                 memo[n] = None
                 return None
             if sc.kind == "synth":
-                visible |= {it["name"] for it, ok in zip(files[p]["content"], c) if ok and it["ty"] == "def.ax"}
+                for it, ok in zip(files[p]["content"], c):
+                    if ok and it["ty"] == "def.ax":
+                        if it["name"] in visible:      # two imports declare the same constant: extending raises
+                            memo[n] = None
+                            return None
+                        visible.add(it["name"])
         res = []
         if sc.kind == "synth":
             for it in files[n]["content"]:
@@ -912,22 +1013,38 @@ def reference(mv, j):
 
 
 def judge_spec(ctx, sc, j, op_rec, mv, which):
-    """property oracle (c): outcome and items of theory.thy after load op j against the reference loader"""
+    """property oracle (c): load op j against the reference loader, on what a user can observe --
+    * the load raises an exception iff the library says it must (a TheoryException for a cycle / a missing limit);
+    * otherwise theory.thy contains the names contributed by every item the library says is loaded and none of the
+      names of the items it says are not loaded (items after the limit, items that do not parse, other theories).
+    No instrumentation tag, message text or function name is used here."""
     kind, exp = reference(mv, j)
-    got = map_res(op_rec["res"])
     fin = sc.ops[j]
+    res = op_rec["res"]
     what = None
-    if got != kind:
-        what = "outcome %s (%s), the library says %s" % (got, op_rec["res"], kind)
+    if kind == "ok" and res != "ok":
+        what = "raises %s (%s), the library says it loads" % (res["type"], res["msg"][:100])
+    elif kind != "ok" and res == "ok":
+        what = "returns normally, the library says it must fail (%s)" % kind
+    elif kind != "ok" and REF_KIND_TYPE.get(kind) and res["type"] != REF_KIND_TYPE[kind]:
+        what = "raises %s, the library says %s must be reported as a %s" % (res["type"], kind, REF_KIND_TYPE[kind])
     elif kind == "ok":
-        items = op_rec.get("thy_items") or []
-        own = [x for x in items if x[0] == fin["name"]]
-        imp = [x for x in items if x[0] != fin["name"]]
-        if sorted(map(tuple, imp)) != sorted(map(tuple, exp[0])):
-            a, b = {tuple(x) for x in imp}, {tuple(x) for x in exp[0]}
-            what = "items of imported theories differ: extra %s, missing %s" % (sorted(a - b)[:4], sorted(b - a)[:4])
-        elif own != exp[1]:
-            what = "own items loaded %s..., expected %s... (%d / %d items)" % (own[-3:], exp[1][-3:], len(own), len(exp[1]))
+        names = op_rec.get("names")
+        cur = sc.versions_at(j) if sc.kind != "real" else {n: 0 for n in mv.names}
+        loaded = {(n, i) for n, i in exp[0] + exp[1]}
+        want, others = set(), set()
+        scope = mv.names if sc.kind == "synth" else [fin["name"]]       # real theories: only the own items are negated
+        for n in set(scope) | {n for n, _ in loaded}:
+            for i, (ty, nm) in enumerate(mv.files[n][cur[n]]["items"]):
+                (want if (n, i) in loaded else others).update(obs_of_item(ty, nm))
+        others -= want
+        if names is None:
+            what = "theory.thy is None after a load that returned normally"
+        else:
+            have = {(part, nm) for part in ("types", "consts", "theorems") for nm in names[part]}
+            missing, extra = sorted(want - have), sorted(others & have)
+            if missing or extra:
+                what = "theory.thy lacks %s and contains %s (names of items that must / must not be loaded)" % (missing[:5], extra[:5])
     if what is not None:
         if which == "history":
             key = "spec:" + classify_history(sc, j) if not stale_imports_class(sc, j) else STALE_IMPORTS
@@ -978,29 +1095,62 @@ def judge(ctx, sc, j, hop, fop, label):
     return d
 
 
+def instrumented(h):
+    """Did the tracing wrappers of c12_runner.py see the loader's work?  (They hang on internals: module attributes of
+    logic/basic.py and server/items.py; a harmless refactoring may bypass them.)"""
+    ins = h.get("instr")
+    if ins is None or (ins["json"] == 0 and ins["parse"] == 0 and ins["extend"] == 0):
+        return True                     # nothing was read or extended (e.g. every load failed in load_metadata)
+    return ins["json"] > 0 and ins["parse"] > 0 and ins["tagged"] == ins["extend"]
+
+
+def model_names(mv, sc, j, thy):
+    cur = sc.versions_at(j) if sc.kind != "real" else {n: 0 for n in mv.names}
+    out = set()
+    for n, i in thy:
+        ty, nm = mv.files[n][cur[n] if n in cur else 0]["items"][i]
+        out.update(obs_of_item(ty, nm))
+    return out
+
+
 def correspond(ctx, sc, h, model_out, mv, label):
+    """Model correspondence (never a violation by itself).  Outcomes are matched by exception class.  With working
+    instrumentation: files parsed, modules executed, exact item list of theory.thy at every load.  When the wrappers
+    were bypassed: only the outcome and the names the model's theory must contribute (scenarios with injected faults
+    are skipped, the fault cannot be injected)."""
     m = parse_model(model_out, mv) if model_out else None
     if m is None:
         ctx.broken("correspondence:c12:driver", "model driver gave no answer for %s" % label)
         return False
+    full = instrumented(h)
+    if not full:
+        ctx.count("instrumentation-bypassed")
+        ctx.coverage["instrumentation"] = ("tracing wrappers bypassed by the implementation (%s): correspondence reduced to outcomes and "
+                                           "observable names" % h.get("instr"))
+        if any(op.get("fault") for op in sc.ops):
+            return True
     bad = []
     for j, (po, mo) in enumerate(zip(h["ops"], m["ops"])):
-        pr = map_res(po["res"])
-        if pr != mo["res"]:
-            bad.append("op %d %s: impl %s (%s) model %s" % (j, sc.ops[j], pr, po["res"], mo["res"]))
-        if po["reads"] != mo["reads"]:
+        if not compatible(mo["res"], po["res"]):
+            bad.append("op %d %s: impl %s model %s" % (j, sc.ops[j], po["res"], mo["res"]))
+        if full and po["reads"] != mo["reads"]:
             bad.append("op %d %s: files parsed impl %s model %s" % (j, sc.ops[j], po["reads"], mo["reads"]))
         if po["mods"] != mo["mods"]:
             bad.append("op %d %s: modules executed impl %s model %s" % (j, sc.ops[j], po["mods"], mo["mods"]))
         if sc.ops[j]["op"] == "load":
             ht, mt = po.get("thy_items"), mo["thy"]
-            if ht is not None and mt is not None:
+            if full and ht is not None and mt is not None:
                 if ht != mt:
                     k = next((k for k in range(min(len(ht), len(mt))) if ht[k] != mt[k]), min(len(ht), len(mt)))
                     bad.append("op %d %s: theory items differ at position %d: impl %s model %s (lengths %d / %d)" % (
                         j, sc.ops[j], k, ht[k:k + 3], mt[k:k + 3], len(ht), len(mt)))
-            elif (ht is None) != (mt is None):
-                bad.append("op %d: theory impl %s model %s" % (j, "None" if ht is None else "set", "None" if mt is None else "set"))
+            elif not full and po.get("names") is not None and mt is not None and po["res"] == "ok":
+                have = {(part, nm) for part in po["names"] for nm in po["names"][part]}
+                lack = sorted(model_names(mv, sc, j, mt) - have)
+                if lack:
+                    bad.append("op %d %s: theory lacks names the model's theory contributes: %s" % (j, sc.ops[j], lack[:5]))
+            elif (po.get("names") is None) != (mt is None):
+                bad.append("op %d: theory impl %s model %s" % (j, "None" if po.get("names") is None else "set", "None" if mt is None else "set"))
     if bad:
         ctx.broken("correspondence:c12:%s" % label, "; ".join(bad[:3]) + " | history " + json.dumps(sc.ops, ensure_ascii=False)[:300])
         ctx.coverage["disagreements_checked"] += 1
@@ -1008,30 +1158,38 @@ def correspond(ctx, sc, h, model_out, mv, label):
     return True
 
 
-def run_scenarios(ctx, scs, src, label):
+def run_scenarios(ctx, scs, src, label, zygote=False):
     """Runs every scenario (one history process + one fresh process per judged load, in parallel), judges every
-    judged load against the fresh process and the reference loader, and compares every step with the model."""
-    jobs = {}
-    fresh_cache = {}
+    judged load against the fresh process and the reference loader, and compares every step with the model.
+    zygote=True: the processes are forked from one process that has just imported the loader (synthetic battery);
+    otherwise every run is a cold `python` process."""
     specs = []
     for idx, sc in enumerate(scs):
         specs.append(prepare(ctx, sc, "%s%d" % (label, idx), src))
-    with concurrent.futures.ThreadPoolExecutor(max_workers=WORKERS) as ex:
-        for idx, sc in enumerate(scs):
-            hspec, fspecs = specs[idx]
-            jobs[("h", idx)] = ex.submit(run_runner, ctx, hspec, "%s-h%d" % (label, idx))
-        for idx, sc in enumerate(scs):
-            hspec, fspecs = specs[idx]
-            for j, fspec in fspecs.items():
-                fk = fresh_key(sc, j)
-                if fk not in fresh_cache:
-                    fresh_cache[fk] = ex.submit(run_runner, ctx, fspec, "%s-f%d-%d" % (label, idx, j))
-                jobs[("f", idx, j)] = fresh_cache[fk]
-        results = {}
-        for n_done, (k, jb) in enumerate(jobs.items()):
-            results[k] = jb.result()
-            if (n_done + 1) % 40 == 0:
-                ctx.log("%s: %d/%d subprocess results collected (%d processes)" % (label, n_done + 1, len(jobs), len(fresh_cache) + len(scs)))
+    todo, alias, fresh_cache = {}, {}, {}
+    for idx, sc in enumerate(scs):
+        todo[("h", idx)] = specs[idx][0]
+    for idx, sc in enumerate(scs):
+        for j, fspec in specs[idx][1].items():
+            fk = fresh_key(sc, j)
+            if fk not in fresh_cache:
+                fresh_cache[fk] = ("f", idx, j)
+                todo[("f", idx, j)] = fspec
+            alias[("f", idx, j)] = fresh_cache[fk]
+    if zygote:
+        done = run_zygote(ctx, todo, label)
+    else:
+        done = {}
+        with concurrent.futures.ThreadPoolExecutor(max_workers=WORKERS) as ex:
+            futs = {k: ex.submit(run_runner, ctx, sp, "%s-%s" % (label, "-".join(map(str, k)))) for k, sp in todo.items()}
+            for n_done, (k, jb) in enumerate(futs.items()):
+                done[k] = jb.result()
+                if (n_done + 1) % 40 == 0:
+                    ctx.log("%s: %d/%d subprocess results collected" % (label, n_done + 1, len(futs)))
+    results = dict(done)
+    for k, k0 in alias.items():
+        results[k] = done[k0]
+    ctx.log("%s: %d scenarios, %d processes (%s)" % (label, len(scs), len(todo), "forked from one importer" if zygote else "cold"))
     ctx.count("processes", len(fresh_cache) + len(scs))
     lines, views = [], []
     for idx, sc in enumerate(scs):
@@ -1060,10 +1218,14 @@ def run_scenarios(ctx, scs, src, label):
             if "error" in f:
                 ctx.broken("runner:c12:" + lab, "fresh run for step %d: %s" % (j, f.get("error")))
                 continue
-            ctx.count("judged-load:" + map_res(h["ops"][j]["res"]))
+            ctx.count("load-vs-fresh-process:" + coarse(h["ops"][j]["res"]))
             if judge(ctx, sc, j, h["ops"][j], f["ops"][0], lab):
                 nviol += 1
-            if judge_spec(ctx, sc, j, f["ops"][0], views[idx], "fresh") or judge_spec(ctx, sc, j, h["ops"][j], views[idx], "history"):
+            if judge_spec(ctx, sc, j, f["ops"][0], views[idx], "fresh"):
+                nviol += 1
+        for j in sc.spec_ops():
+            ctx.count("load-vs-reference-loader")
+            if judge_spec(ctx, sc, j, h["ops"][j], views[idx], "history"):
                 nviol += 1
         correspond(ctx, sc, h, out[idx] if out else None, views[idx], lab)
     if out is None:
@@ -1126,22 +1288,25 @@ def run(ctx):
         "covered by the subprocess oracles and the model correspondence only",
         "a change of a file's `imports` needs basic.load_metadata() before the next load (known finding, generated and keyed)",
         "the Python package smt/ of the repository is shadowed by site-packages and is not imported in histories",
+        "no theorem bounds the model's fuel; the runs use fuel 400 and would show a model answer `fuel` as a correspondence break",
+        "for real theories the reference loader's per-item ok flags come from the implementation itself (oracle (c) is "
+        "independent there only for import order, limit logic and presence/absence of item names)",
         "a file replaced by DIFFERENT content with EXACTLY the mtime it was cached under is outside the property (a timestamp cache "
         "cannot see it; 'a changed file is re-read' presupposes a changed timestamp) and is not generated; any other mtime, older or "
         "newer, must cause a re-read and is generated"]
     corpus = load_corpus(ctx)
-    if corpus:
-        run_scenarios(ctx, corpus, src, "corpus")
     rng = ctx.rng("histories")
     heavy = heavy_histories(src, ctx.tier)
     bat = battery(ctx.rng("battery"))
     for sc in bat[:1] + bat[7:8]:
         ctx.sample({"kind": sc.kind, "ops": sc.ops, "note": sc.note})
-    run_scenarios(ctx, bat, src, "battery")
-    scs = gen_real(rng, src, ctx.scale(2, 22), heavy) + gen_copy(rng, src, ctx.scale(1, 10)) + gen_synth(rng, ctx.scale(4, 38))
-    for sc in scs[:2] + scs[-2:]:
+    rnd = gen_real(rng, src, ctx.scale(1, 22), heavy) + gen_copy(rng, src, ctx.scale(1, 10)) + gen_synth(rng, ctx.scale(6, 38))
+    for sc in rnd[:2] + rnd[-2:]:
         ctx.sample({"kind": sc.kind, "ops": sc.ops, "note": sc.note})
-    run_scenarios(ctx, scs, src, "gen")
+    everything = corpus + bat + rnd
+    # synthetic libraries: forked from one process that has imported the loader; real theories: cold processes
+    run_scenarios(ctx, [sc for sc in everything if sc.kind == "synth"], src, "synthetic", zygote=True)
+    run_scenarios(ctx, [sc for sc in everything if sc.kind != "synth"], src, "real")
 
 
 def replay(ctx, rp):
@@ -1156,25 +1321,35 @@ def replay(ctx, rp):
 
 MANIFEST = {
     "text": "Lean theorems about an executable model of the loader state machine (per-user cache with timestamps and dependency "
-            "timestamps, global theory, fresh_theory blocks, import-once module side effects, injected faults), for every world "
-            "(parser, lazy-import table, module bodies), library, timestamps and fuel: after every history of loads, interrupted loads, "
-            "module imports, os.utime and load_metadata, load_theory(n, limit) on a healthy library returns exactly what the "
-            "specification says (load_eq_spec: same outcome, same item list; missing limit reported; never a failure caused by "
-            "the history); cycles are reported by every load with nothing cached; a file with a changed timestamp is parsed again. "
-            "Module/import/lazy tables are regenerated from the sources each run and checked (acyclic, orders exist, module loads "
-            "exist). The model is tied to logic/basic.py by scripted histories run in subprocesses: outcome of every step, files "
-            "parsed, modules executed and the items of theory.thy must equal the model's; every history is also judged against a "
-            "fresh process and against an independent reference loader.",
-    "note": "Trusted: Lean kernel, propext/Classical.choice/Quot.sound, the harness (tracing wrappers, ast scan of module-level "
-            "imports; function-level imports not followed), the reference loader. Item contents are opaque (parse result = function "
-            "of item and visible items). Theorems cover content-preserving histories; edits of files that keep the imports "
-            "(including edits of indirectly imported files and new content with an older mtime, fix C12-3) are covered by the "
-            "deterministic battery (subprocess oracles, model correspondence), by changed_file_reread (dependency timestamps recorded "
-            "for all transitive imports; older timestamp = changed) and by one concrete Lean instance, not by a general theorem. "
-            "Same-mtime-different-content is out of scope. "
-            "Known finding: edited `imports` are not re-read without load_metadata (stale_imports_counterexample). Model fuel: "
-            "theorems hold for every fuel, with 'ran out of fuel' as an explicit outcome; sufficiency of fuel is not proved. "
-            "Model = code with fixes C12-1..4; single user (master).",
+            "timestamps, global theory, fresh_theory blocks, import-once module side effects, injected faults, extensions that "
+            "raise when cached items are re-applied), for every world (parser, extension clashes, lazy-import table, module "
+            "bodies), library, timestamps and fuel. SCOPE OF THE THEOREMS: histories that KEEP THE CONTENT of every file "
+            "(loads, interrupted loads, module imports, os.utime forwards/backwards, load_metadata). For those: load_eq_spec "
+            "(healthy library: no parse exception, no clash between items, acyclic, orders exist) -- the outcome of "
+            "load_theory(n, limit) is the specification's (same item list, 'limit not found' exactly when specified, never a "
+            "failure caused by the history); load_eq_spec_partial (any library: a normal return carries the specified theory); "
+            "import_clash_reported, missing_limit_reported, cycle_reported (every load, nothing cached); changed_file_reread: a "
+            "file whose TIMESTAMP differs (older or newer) from the cached one is parsed again and the new entry records the "
+            "timestamps of ALL transitive imports. NOT covered by a general theorem: histories in which file contents change "
+            "(fix C12-3, the `depends` list, has only changed_file_reread's last clause and one concrete instance "
+            "indirect_edit_older_mtime_example); these are judged by the deterministic battery of scripted histories. "
+            "FUEL: every theorem admits the outcome 'the model ran out of fuel'; no theorem says that some amount of fuel "
+            "suffices (the model's termination is not proved); every run confirms on its own histories that fuel 400 sufficed. "
+            "Tables (import graph, lazy imports, module -> load_theory calls) are regenerated from the sources each run and "
+            "checked. Tie to logic/basic.py: scripted histories in subprocesses; every load is judged (a) against a fresh "
+            "process on the files of that moment, (c) against a reference loader on observable names and exception classes "
+            "only, and (b) compared with the model (outcome class, files parsed, modules executed, item list).",
+    "note": "Trusted: Lean kernel, propext/Classical.choice/Quot.sound, the harness, the reference loader. Item contents are opaque. "
+            "The property oracles (a) and (c) use only what a user can observe (exception class, names and canonical dump of "
+            "theory.thy); the tags threaded through wrapped internals (load_json_data, parse_item, get_extension, "
+            "unchecked_extend) serve the model correspondence only and are dropped, with a note in the evidence, when a "
+            "refactoring bypasses them. For REAL theories the reference loader takes the per-item ok flags from the "
+            "implementation's own run, so oracle (c) is independent there only for import order, limit logic and "
+            "presence/absence of item names; for synthetic libraries it is fully independent. Synthetic-library processes "
+            "are forked from one process that has imported the loader (state of a fresh process after `from logic import "
+            "basic`); real-library histories run in cold processes. Same-mtime-different-content is out of scope. Known "
+            "finding: edited `imports` are not re-read without load_metadata (stale_imports_counterexample). Model = code with "
+            "fixes C12-1..4; single user (master).",
     "design_ref": "DESIGN.md 4/C12",
 }
 FINDINGS = [
